@@ -220,6 +220,12 @@ func (clnt *Clnt) recv() {
 				goto closed
 			}
 
+			if fc.Type == Rversion && r.Tc.Type == Tversion && fc.Msize < atomic.LoadUint32(&clnt.Msize) {
+				// the msize an Rversion grants is in force for every byte
+				// behind it, also for those read before Connect gets to run
+				atomic.StoreUint32(&clnt.Msize, fc.Msize)
+			}
+
 			r.Rc = fc
 			if r.prev != nil {
 				r.prev.next = r.next
